@@ -539,6 +539,7 @@ DEF_LITS = [("u8",            "7",           "7u8",                         True
             ("crate::m::Num", "300u16",      "crate::m::Num::U16(300)",     False),
             ("crate::m::Num", "5",           "crate::m::Num::I32(5)",       False),
             ("crate::m::Num", "-6i32",       "crate::m::Num::I32(-6)",      False),
+            ("u8",            "crate::m::next_id()", "0u8",                 False),   # impure expression: evaluated exactly once
             ("crate::m::Off", "9",           "9i64",                        True),
             ("crate::m::Flt", "-2.5",        "-2.5f64",                     False),
             ("crate::m::Flt", "3",           "3.0f64",                      False),
@@ -987,6 +988,7 @@ DISCRS = {
     "imin": lambda n: [-128, None, 127, None][:n],
     # negative literals whose absolute values increase in declaration order while the values themselves do not
     "errno": lambda n: [-1, -2, -5, -9][:n],
+    "i32edge": lambda n: [1, 0x7FFFFFFE, None, None][:n],       # counts past i32::MAX
     "posneg": lambda n: [5, -10, None, None][:n],
 }
 
@@ -1065,7 +1067,7 @@ def c04(tier, seed):
     reprs_for = {"implicit": [None, "u8", "i8", "C", "u16", "i32", "isize"], "five": [None, "u8", "i16"], "neg": [None, "i8", "i32"], "neg3": ["i16", "i64"],
                  "b127": [None, "i8", "u8"], "b128": [None, "u8", "i16"], "b200": [None, "u8", "i32"], "b255": [None, "u8"], "k1000": [None, "u16", "i32"],
                  "nonmono": [None, "i8", "i32"], "mixed": [None, "u8"], "i64": [None, "i64"], "imin": [None, "i8"],
-                 "errno": [None, "i8", "i32"], "posneg": [None, "i8", "i16"]}
+                 "errno": [None, "i8", "i32"], "posneg": [None, "i8", "i16"], "i32edge": [None, "C", "i64"]}
     shapes = [("none", "none", "none"), ("gen", "none", "gen"), ("none", "gen"), ("gen",), ("gen", "gen", "none", "gen"), ("none", "none"), ("none", "none", "none", "none")]
     for dname, reprs in reprs_for.items():
         for repr_ in reprs:
@@ -1091,7 +1093,7 @@ def c04(tier, seed):
                 if repr_ in (None, "C") and not fits(vals, "isize"):
                     continue
                 form += 1
-                if tier == "quick" and form % 3 != 0 and dname not in ("b128", "nonmono", "b255", "errno", "posneg"):
+                if tier == "quick" and form % 3 != 0 and dname not in ("b128", "nonmono", "b255", "errno", "posneg", "i32edge"):
                     continue
                 md = "both" if form % 2 == 0 else "po"
                 out.append(layout_enum(c.pid(), sh, dname, repr_, md))
@@ -1389,7 +1391,7 @@ def c20(tier, seed):
             out.append(P)
     # Debug on unions: the type name (or nothing) and the size_of::<Self>() bytes as one slice; Verus on the verbatim impl
     # with the raw byte view and the slice's own Debug replaced by stubs (t_union.post_render), native replay on failure
-    dbg_sets = [("Debug(unsafe)", "default"), ("Debug(unsafe, name = false)", False), ("Debug(unsafe, name(Other))", "Other"), ("Debug(unsafe, name(false))", False),
+    dbg_sets = [("Debug(unsafe, name = raw_bytes)", "raw_bytes"), ("Debug(unsafe)", "default"), ("Debug(unsafe, name = false)", False), ("Debug(unsafe, name(Other))", "Other"), ("Debug(unsafe, name(false))", False),
                 ('Debug(unsafe, rename = "Other")', "Other"), ('Debug(unsafe, name = "")', False)]
     for ui, urow in enumerate(UNIONS):
         fields, size, generics = urow[:3]
@@ -2547,6 +2549,47 @@ def wide(prop):
                 P = into_program(pid(), kind, vs, ["u16", "u32"], "wide: generic conversion method on the first of two markers, %s %s" % (kind, shape), 0)
                 P.tags["no_verus"] = "generic conversion method: decided by Kani"
                 out.append(P)
+
+    if prop == "C02":
+        # fields spelled as float types next to an educed Eq: still compared with the type's own == (0.0 == -0.0, NaN != NaN)
+        for shape in ("named", "tuple"):
+            fs = [Field(LONG[0] if shape == "named" else None, "f32", eq={}), Field(LONG[1] if shape == "named" else None, "u8", eq={})]
+            P = Program(pid(), "struct", "S", [Variant(None, shape, fs)], ["PartialEq", "Eq"], focus={"PartialEq"}, note="wide: literal f32 field with Eq educed, struct %s" % shape)
+            P.tags["no_verus"] = "float field: decided by Kani"
+            out.append(P)
+        vs = [Variant("V0", "tuple", [Field(None, "f32", eq={})]), Variant("V1", "named", [Field("a", "u8", eq={}), Field("b", "f32", eq={})])]
+        P = Program(pid(), "enum", "E", vs, ["Eq", "PartialEq"], focus={"PartialEq"}, note="wide: literal f32 fields with Eq educed, enum")
+        P.tags["no_verus"] = "float field: decided by Kani"
+        out.append(P)
+    if prop == "C05":
+        PHT = "(u8, core::marker::PhantomData<u16>)"
+        fs = [Field("a", PHT, hash={}), Field("b", "u8", hash={}), Field("c", "core::marker::PhantomData<u16>", hash={})]
+        out.append(Program(pid(), "struct", "S", [Variant(None, "named", fs)], ["Hash"], focus={"Hash"}, note="wide: tuple-typed field containing a PhantomData element, struct"))
+        vs = [Variant("V0", "tuple", [Field(None, PHT, hash={})]), Variant("V1", "named", [Field("a", PHT, hash={}), Field("b", "u8", hash={})])]
+        out.append(Program(pid(), "enum", "E", vs, ["Hash"], focus={"Hash"}, note="wide: tuple-typed field containing a PhantomData element, enum"))
+    if prop == "C09":
+        SL = "&'static [u8]"
+        fs = [Field(None, "u8", deref={}), Field(None, SL, attrs=["Deref"], deref={"mark": True}), Field(None, "u8", deref={})]
+        P = Program(pid(), "struct", "S", [Variant(None, "tuple", fs)], ["Deref"], focus={"Deref"}, note="wide: slice-reference designated field (struct)")
+        P.tags["no_verus"] = "slice reference field: Kani on the concrete layout"
+        out.append(P)
+        vs = [Variant("V0", "tuple", [Field(None, SL, deref={"mark": True})]), Variant("V1", "named", [Field("a", "u8", deref={}), Field("b", SL, attrs=["Deref"], deref={"mark": True})])]
+        P = Program(pid(), "enum", "E", vs, ["Deref"], focus={"Deref"}, note="wide: slice-reference designated fields (enum)")
+        P.tags["no_verus"] = "slice reference field: Kani on the concrete layout"
+        out.append(P)
+    if prop == "C10":
+        PH = "core::marker::PhantomData<u16>"
+        for shape in ("named", "tuple"):
+            fs = [Field("amount" if shape == "named" else None, "u16", into={"marks": {}}),
+                  Field("unit" if shape == "named" else None, PH, attrs=["Into(u32, method = crate::m::into_ph)"], into={"marks": {"u32": "crate::m::into_ph"}})]
+            P = into_program(pid(), "struct", [Variant(None, shape, fs)], ["u32"], "wide: marker with a method on a PhantomData field next to one data field, struct %s" % shape, 0)
+            P.tags["no_verus"] = "PhantomData field with a method: decided by Kani"
+            out.append(P)
+        vs = [Variant("V0", "tuple", [Field(None, "u16", into={"marks": {}}), Field(None, PH, attrs=["Into(u32, method = crate::m::into_ph)"], into={"marks": {"u32": "crate::m::into_ph"}})]),
+              Variant("V1", "tuple", [Field(None, "u32", into={"marks": {}})])]
+        P = into_program(pid(), "enum", vs, ["u32"], "wide: marker with a method on a PhantomData field, enum", 0)
+        P.tags["no_verus"] = "PhantomData field with a method: decided by Kani"
+        out.append(P)
 
     return out
 
